@@ -27,7 +27,7 @@ template <int WHICH, class IA, class IB, class TA, class TB>
 void pair_case(Ctx& c) {
     using T = typename TensVals<TA>::scalar;
     Rng g = c.rng();
-    TA a; TB b;
+    VP_OPERAND((TA), a); VP_OPERAND((TB), b);
     std::vector<Operand> ops = { { IdxVals<IA>::get(), TensVals<TA>::dims() }, { IdxVals<IB>::get(), TensVals<TB>::dims() } };
     size_t nterms = 1; { std::map<size_t, size_t> ext; label_extents(ops, ext); auto fr = free_labels(ops); for (auto& kv : ext) if (std::find(fr.begin(), fr.end(), kv.first) == fr.end()) nterms *= kv.second; }
     for (int draw = 0; draw < 2; ++draw) {
@@ -56,7 +56,7 @@ template <class IA, class IB, class TA, class TB>
 void pair_expr_case(Ctx& c) {
     using T = typename TensVals<TA>::scalar;
     Rng g = c.rng(1);
-    TA a; TB b; Fill2<TA, TB>::small(a, b, g);
+    VP_OPERAND((TA), a); VP_OPERAND((TB), b); Fill2<TA, TB>::small(a, b, g);
     std::vector<Operand> ops = { { IdxVals<IA>::get(), TensVals<TA>::dims() }, { IdxVals<IB>::get(), TensVals<TB>::dims() } };
     std::vector<T> want; std::vector<size_t> wd; ref_einsum<T, T>(ops, { a.data(), b.data() }, {}, want, wd);
     scrub_stack(); auto res = einsum<IA, IB>(a + T(0), b * T(1)); launder((void*)res.data());
@@ -69,7 +69,7 @@ template <class IA, class IB, class IO, class TA, class TB>
 void pair_explicit_case(Ctx& c) {
     using T = typename TensVals<TA>::scalar;
     Rng g = c.rng(2);
-    TA a; TB b;
+    VP_OPERAND((TA), a); VP_OPERAND((TB), b);
     std::vector<Operand> ops = { { IdxVals<IA>::get(), TensVals<TA>::dims() }, { IdxVals<IB>::get(), TensVals<TB>::dims() } };
     for (int draw = 0; draw < 2; ++draw) {
         Fill2<TA, TB>::small(a, b, g);
@@ -91,7 +91,7 @@ template <int WHICH, class IA, class TA>
 void single_case(Ctx& c) {
     using T = typename TensVals<TA>::scalar;
     Rng g = c.rng(3);
-    TA a;
+    VP_OPERAND((TA), a);
     std::vector<Operand> ops = { { IdxVals<IA>::get(), TensVals<TA>::dims() } };
     for (int draw = 0; draw < 2; ++draw) {
         fill_small(a.data(), TensVals<TA>::size, g, 7);
